@@ -47,6 +47,7 @@ fn flip(k: &Pubkey, at: usize) -> Pubkey {
 pub fn run(tier: Tier, seed: u64) -> i32 {
     let mut rep = Report::new("C04", tier, seed);
     rep.exhaustive = true;
+    rep.level = "fault_enumeration";
     rep.rule = "enumeration: for every privileged instruction of the program (catalogue cross-checked at run time against the `pub fn` list of /repo/programs/whirlpool/src/lib.rs; unknown instruction => inconclusive) a golden invocation that must succeed on the base state, then every variant on a clone of that state: (a) authority key present without signature, (b) a different funded key signing, (b') keys differing from the authority in one bit at either end, (c) the corresponding authority of another config / pool, and for position-token authorities additionally (c') another holder with the token account of their own position, (d) a delegate with delegated amount 0, 1, 2 (only 1 may pass), (e) a token account of the position mint holding 0 tokens, (f) the token account of another position with its real owner signing, (g) the delegate's key in the slot while only the owner signs, (h) a forged copy of the token account (attacker as owner, amount 1) owned by a program that is not a token program: a random id and ids that share a prefix, a suffix or both ends with the Token / Token-2022 ids. Every variant except the documented ones must fail. distinct = (instruction, variant)".into();
     rep.assumptions = vec!["native mini-SVM with the runtime's signer-privilege rules; a variant that would need a signature the transaction does not carry cannot be built by a client at all (counted as rejected)".into(), "keys are sampled: an authority comparison that ignores some byte is only probed at byte 0 and byte 31".into()];
     let flavours = tier.pick(1, 4);
